@@ -840,10 +840,11 @@ def total_loops(repo: Repo, R, noret):
                     why=f"some {cont} survive the pass that is meant to remove them")
     # find_source: more than one source fails
     fi = repo.func(F_PORTREFS, "ResolvePortRefs.find_source")
-    ok = au.raises(au.tail_default(fi.node.body), noret)
-    one = any(au.cmp_norm(n.test) == ("eq", "-1 + len(sources)") or au.cmp_norm(n.test) == ("eq", "len(sources) + -1") for n in au.walk_no_nested(fi.node) if isinstance(n, ast.If))
+    # whatever the order of the cases: with more than one source a failure is reached (arithmetic over len(<sources>))
+    srcs = [st.targets[0].id for st in au.walk_no_nested(fi.node) if isinstance(st, ast.Assign) and len(st.targets) == 1 and isinstance(st.targets[0], ast.Name) and "Source.__args__" in ast.unparse(st.value)]
+    ok = bool(srcs) and shared.raises_under(fi.node, [(f"len({srcs[0]}) > 1", True)], noret)
     R.check(ok, rule, key_of(fi, "multi-source-fails"), fi.site,
-            "falling through the 0/1-source cases ends in fail()" if ok else "more than one source in a group does not fail",
+            "with more than one source in the group fail() is reached" if ok else "more than one source in a group does not fail",
             why="two distinct signals shorted through port references are silently merged onto one of them")
 
 
@@ -1112,7 +1113,8 @@ def secondary(repo: Repo, R, noret):
     fwn = repo.func(F_PORTREFS, "ResolvePortRefs.which_portref_to_name")
     g = fwn.node.args.args[1].arg
     srt = any(isinstance(c.func, ast.Name) and c.func.id == "sorted" and len(c.args) == 1 and ast.unparse(c.args[0]) == g and any(k.arg == "key" and isinstance(k.value, ast.Lambda) and len(k.value.args.args) == 1 and ast.unparse(k.value.body) == f"({k.value.args.args[0].arg}.inst.name, {k.value.args.args[0].arg}.portname)" for k in c.keywords) for c in au.calls_in(fwn.node, nested=True))
-    many = any(isinstance(n, ast.If) and pat.match("1 < len($L)", prov(fwn.node, n.test)) is not None and au.raises(n.body, noret) for n in au.walk_no_nested(fwn.node))
+    unc = [st.targets[0].id for st in au.walk_no_nested(fwn.node) if isinstance(st, ast.Assign) and len(st.targets) == 1 and isinstance(st.targets[0], ast.Name) and isinstance(st.value, (ast.ListComp, ast.GeneratorExp)) and "is None" in ast.unparse(st.value)]
+    many = bool(unc) and shared.raises_under(fwn.node, [(f"len({unc[0]}) > 1", True)], noret)
     R.check(srt and many, rule, key_of(fwn), fwn.site, f"naming is deterministic (the unconnected port, else the first by (instance name, port name) — a total order on the group: {srt}); several unconnected ports fail: {many}", why="net names depend on iteration order")
     # (b) follow() distinguishes references from sources
     ff = follow_function(repo)
